@@ -333,6 +333,25 @@ public:
 
   bool trusted() { return (_flags & FLAG_TRUSTED) != 0; }
 
+#ifdef BLOC_VERIF
+  /*========================================================================*/
+  /* Verification hooks (read-only accessors, compiled only with BLOC_VERIF) */
+  /*========================================================================*/
+  size_t verifSymbolCount() const { return _storage_pool.size(); }
+  const Symbol& verifSymbolAt(size_t i) const { return *_storage_pool[i].symbol; }
+  const Value& verifValueAt(size_t i) const { return _storage_pool[i].value; }
+  size_t verifControlDepth() const { return _controlstack.size(); }
+  size_t verifExecDepth() const { return _execstack.size(); }
+  size_t verifTempCount() const { return _temporary_storage.count(); }
+  size_t verifTempReserved() const { return _temporary_storage.reserved(); }
+  size_t verifBackedCount() const { return _backed_symbols.size(); }
+  int verifConditions() const
+  {
+    return (_breakCondition ? 1 : 0) | (_continueCondition ? 2 : 0)
+         | (_returnCondition ? 4 : 0) | (_parsing ? 8 : 0);
+  }
+#endif
+
 private:
   Context * _root;
   FunctorManager * _fctm = nullptr;
